@@ -207,10 +207,14 @@ func engineCoverage(c *Ctx, e *symx.Engine, prefix string) {
 	var fns []string
 	for f := range e.FuncsRun {
 		if strings.Contains(f, modPath) && !strings.Contains(f, "verif") {
+			if i := strings.IndexByte(f, '['); i >= 0 {
+				f = f[:i] + "[…]"
+			}
 			fns = append(fns, f)
 		}
 	}
 	sortStrings(fns)
+	fns = dedupe(fns)
 	c.Coverage[prefix+"functions_encoded"] = fns
 }
 
